@@ -7,6 +7,7 @@ From NadaV.Spec Require Denote.
 From NadaV.Spec Require Import TypingSpec.
 From NadaV.Spec Require Tables.
 From NadaV.Proofs Require Import TableObligations C04Proofs.
+From NadaV.Proofs Require C06Proofs.
 Import ListNotations.
 Open Scope string_scope.
 
@@ -49,6 +50,22 @@ Proof.
     | exact tbl_src_Object_new ].
 Qed.
 Print Assumptions C04_tables.
+
+(* "sub-expressions made only of literals are replaced by their value": the value is the exact one
+   (consumed from the C06 development: for ALL integers) *)
+Theorem C04_literal_subexpressions_exact : forall b x y, NadaV.Proofs.C06Proofs.num b -> y <> 0%Z ->
+  rule2v GenScalar.G OAdd (MConst, b) (MConst, b) x y = Fold (MConst, b) (VInt (x + y)%Z) /\
+  rule2v GenScalar.G OSub (MConst, b) (MConst, b) x y = Fold (MConst, b) (VInt (x - y)%Z) /\
+  rule2v GenScalar.G OMul (MConst, b) (MConst, b) x y = Fold (MConst, b) (VInt (x * y)%Z) /\
+  rule2v GenScalar.G ODiv (MConst, b) (MConst, b) x y = Fold (MConst, b) (VInt (x / y)%Z) /\
+  rule2v GenScalar.G OMod (MConst, b) (MConst, b) x y = Fold (MConst, b) (VInt (x mod y)%Z).
+Proof.
+  intros b x y Hb Hy.
+  exact (conj (NadaV.Proofs.C06Proofs.fold_add b x y Hb) (conj (NadaV.Proofs.C06Proofs.fold_sub b x y Hb)
+        (conj (NadaV.Proofs.C06Proofs.fold_mul b x y Hb) (conj (NadaV.Proofs.C06Proofs.fold_div b x y Hb Hy)
+        (NadaV.Proofs.C06Proofs.fold_mod b x y Hb Hy))))).
+Qed.
+Print Assumptions C04_literal_subexpressions_exact.
 
 (* FULL statement of C04 over the model -- NOT proved for all programs (the simulation between the
    store-free denotation Spec/Denote.v and the tracer is future work); it is decided per program:
